@@ -962,7 +962,7 @@ func runHist(t *testing.T, seed int64, n int, out *Out) {
 		wv := histWorldVariant{AtomPrice: []string{"5", "5", "5", "0.25"}[rand.New(rand.NewSource(hseed^0x5eed)).Intn(4)],
 			Inflation: rand.New(rand.NewSource(hseed^0x1f1a)).Intn(3) == 0 || os.Getenv("VERIF_INFLATION") != "",
 			Whale:     rand.New(rand.NewSource(hseed^0x3a1e)).Intn(5) == 0 || os.Getenv("VERIF_WHALE") != "",
-			Sweep:     []string{"default", "default", "one-per-block", "every-7-blocks", "off"}[rand.New(rand.NewSource(hseed^0x5bee)).Intn(5)]}
+			Sweep:     []string{"default", "default", "one-per-block", "every-7-blocks", "off"}[rand.New(rand.NewSource(hseed^0x5bee)).Intn(5)], ExtRewards: true}
 		if dr := rand.New(rand.NewSource(hseed ^ 0xd0d0)); dr.Intn(6) == 0 || os.Getenv("VERIF_DUMP") != "" {
 			wv.Dump = 1 + dr.Intn(4)
 			wv.DumpDenom = [][]string{{"uatom", "uusdc"}, {"uelys", "uusdc"}, {"uatom", "uusdc"}, {"uatom", "uusdc"}}[wv.Dump-1][dr.Intn(2)]
@@ -1126,6 +1126,9 @@ type histWorldVariant struct {
 	// Usdc: the denom USDC has on the chain; "" = "uusdc" (as in the repository's tests), otherwise an ibc/… voucher (as in
 	// production: asset-profile BaseDenom "uusdc", Denom ibc/…)
 	Usdc string `json:"usdc,omitempty"`
+	// ExtRewards: governance has listed ATOM and USDC as supported external reward denoms (every generated history; absent in
+	// histories stored before the switch existed, whose MsgAddExternalIncentive were all refused)
+	ExtRewards bool `json:"extRewards,omitempty"`
 }
 
 func histWorld(t *testing.T, hseed int64, wv histWorldVariant) (*World, *Std) {
@@ -1135,6 +1138,13 @@ func histWorld(t *testing.T, hseed int64, wv histWorldVariant) (*World, *Std) {
 		usdc = "uusdc"
 	}
 	std := w.SeedStandardWith(D(wv.AtomPrice), usdc)
+	if wv.ExtRewards {
+		w.Seed(func(ctx sdk.Context) {
+			mcp := w.App.MasterchefKeeper.GetParams(ctx)
+			mcp.SupportedRewardDenoms = []*mctypes.SupportedRewardDenom{{Denom: "uatom", MinAmount: math.NewInt(1)}, {Denom: usdc, MinAmount: math.NewInt(1)}}
+			w.App.MasterchefKeeper.SetParams(ctx, mcp)
+		})
+	}
 	if wv.Inflation {
 		w.Seed(func(ctx sdk.Context) {
 			bpy := w.App.ParameterKeeper.GetParams(ctx).TotalBlocksPerYear
